@@ -274,6 +274,8 @@ def sf_local_epoch(I, fr, t):
 
 def sf_proto_index(I, fr, v):
     """Index 0..4 of a protocol module value / of the protocol field."""
+    if isinstance(v, SpecOpt):
+        v = v.value
     return Sym(I.to_term(v, TProto), "int")
 
 
@@ -340,7 +342,38 @@ def sf_loop_done(I, fr):
     return L.SetVal(d, TKey3)
 
 
+def sf_rstrip(I, fr, s):
+    from pyvc import strings
+    if isinstance(s, str):
+        return s.rstrip()
+    return Sym(L.rstrip_f(sterm(I, s)), "str")
+
+
+def sf_nth(I, fr, s, sep, i):
+    from pyvc import strings
+    return Sym(strings.nth(sterm(I, s), sterm(I, sep), iterm(I, i)), "str")
+
+
+def sf_rest(I, fr, s, sep, i):
+    from pyvc import strings
+    return Sym(strings.rest(sterm(I, s), sterm(I, sep), iterm(I, i)), "str")
+
+
+def sf_nfields(I, fr, s, sep):
+    from pyvc import strings
+    return Sym(strings.nf(sterm(I, s), sterm(I, sep)), "int")
+
+
+def sf_cross_ok(I, fr, c, k, t):
+    """The protocol's cross-field rules (C02), from the property text."""
+    c, k, t = iterm(I, c), iterm(I, k), iterm(I, t)
+    sys_ok = z3.Implies(z3.Or(k == 3, k == 4), z3.Or(c == 255, z3.And(k == 3, z3.Or(t == 3, t == 4))))
+    no_set_req_on_255 = z3.Implies(c == 255, z3.And(k != 1, k != 2))
+    return Sym(z3.And(sys_ok, no_set_req_on_255), "bool")
+
+
 SPEC_GLOBALS = {
+    "rstrip": sf_rstrip, "nth": sf_nth, "rest": sf_rest, "nfields": sf_nfields, "cross_ok": sf_cross_ok,
     "loop_done": sf_loop_done,
     "wcnt": sf_wcnt, "wcnt_bumped": sf_wcnt_bumped, "k3n": sf_k3n,
     "appended_if": sf_appended_if, "appended_prefix_if": sf_appended_prefix_if, "nothing_changed": sf_nothing_changed,
